@@ -1,9 +1,60 @@
-//! C09 sessions (seeded driver). Fill in.
+//! C09 sessions: durations as a signed quantity without a reference date.
 use super::Tracer;
 use crate::gen::*;
+use crate::js::big;
 use crate::rng::Rng;
-use serde_json::json;
+use serde_json::{json, Value};
+
+const P32: i128 = 1 << 32;
+const P53: i128 = 1 << 53;
+
+/// arbitrary ten-field vector of integral doubles: often valid, sometimes mixed signs / beyond a limit
+fn any_vector(r: &mut Rng) -> Value {
+    let mut f = [0i128; 10];
+    let sg: i128 = if r.chance(1, 2) { 1 } else { -1 };
+    let caps: [i128; 10] = [P32, P32, P32, P53 / 86_400, P53 / 3600, P53 / 60, P53, P53 * 1000, P53 * 1_000_000, P53 * 1_000_000_000];
+    for i in 0..10 {
+        f[i] = match r.range(0, 11) { 0..=5 => 0, 6 | 7 => r.range(0, 100) as i128, 8 => exact_f64_int(r, caps[i] / 4), 9 => caps[i] - 1 - (if i < 3 { 0 } else { r.range(0, 1) as i128 }), 10 => caps[i], _ => exact_f64_int(r, caps[i] * 2) };
+        // keep exactly representable
+        let fl = f[i] as f64; if fl as i128 != f[i] { f[i] = fl as i128; }
+        f[i] *= if r.chance(1, 12) { -sg } else { sg };
+    }
+    dur10(f[0], f[1], f[2], f[3], f[4], f[5], f[6], f[7], f[8], f[9])
+}
+/// a valid calendar-free duration (time + days), total well inside the limit
+fn time_day_dur(r: &mut Rng) -> Value {
+    let sg: i128 = if r.chance(1, 2) { 1 } else { -1 };
+    let lim: i128 = 1 << 49;
+    let f = |r: &mut Rng, num: i128, den: i128| -> i128 { match r.range(0, 9) { 0..=3 => 0, 4..=6 => r.range(0, 100) as i128, 7 => r.range(0, 2_000_000_000) as i128, _ => exact_f64_int(r, lim * num / den) } };
+    dur10(0, 0, 0, sg * f(r, 1, 86_400), sg * f(r, 1, 3600), sg * f(r, 1, 60), sg * f(r, 1, 1), sg * f(r, 1000, 1), sg * f(r, 1_000_000, 1), sg * f(r, 1_000_000_000, 1))
+}
+fn cal_dur(r: &mut Rng) -> Value { let sg: i128 = if r.chance(1, 2) { 1 } else { -1 }; dur10(sg * r.range(0, 2) as i128, sg * r.range(0, 3) as i128, sg * r.range(0, 2) as i128, sg * r.range(0, 9) as i128, sg * r.range(0, 30) as i128, 0, 0, 0, 0, 0) }
 
 pub fn drive(t: &mut Tracer, r: &mut Rng, n: usize) {
-    let _ = (t, r, n);
+    let tunits = ["day", "hour", "minute", "second", "millisecond", "microsecond", "nanosecond"];
+    while t.n < n {
+        match r.range(0, 9) {
+            0 | 1 => { t.call("Duration.new", json!({"dur": any_vector(r)})); }
+            2 => { let d = if r.chance(1, 3) { cal_dur(r) } else { time_day_dur(r) };
+                   t.call("Duration.negated", json!({"recv": d.clone()})); t.call("Duration.abs", json!({"recv": d.clone()})); t.call("Duration.sign", json!({"recv": d})); }
+            3 | 4 => { let a = if r.chance(1, 8) { cal_dur(r) } else { time_day_dur(r) }; let b = if r.chance(1, 8) { cal_dur(r) } else { time_day_dur(r) };
+                   let op = if r.chance(1, 2) { "Duration.add" } else { "Duration.subtract" };
+                   t.call(op, json!({"recv": a.clone(), "other": b.clone()}));
+                   // the commuted call: the trace spec requires both to be explained by the same exact sum
+                   if op == "Duration.add" { t.call(op, json!({"recv": b, "other": a})); } }
+            5 => { let a = if r.chance(1, 10) { cal_dur(r) } else { time_day_dur(r) };
+                   let b = match r.range(0, 3) { 0 => a.clone(), 1 => cal_dur(r), _ => time_day_dur(r) };
+                   t.call("Duration.compare", json!({"recv": a.clone(), "other": b.clone()})); t.call("Duration.compare", json!({"recv": b, "other": a})); }
+            6 | 7 => { // round: smallest / largest among day..ns, admissible increment
+                let sm = *r.pick(&tunits); let lgs: Vec<&str> = tunits.iter().cloned().filter(|u| unit_rank(u) >= unit_rank(sm)).collect(); let lg = *r.pick(&lgs);
+                let inc = if sm == "day" { r.range(1, 7) } else { *r.pick(&time_incs(sm)) };
+                let d = if r.chance(1, 12) { cal_dur(r) } else { time_day_dur(r) };
+                let mode = *r.pick(&MODES);
+                t.call("Duration.round", json!({"recv": d, "st": {"largest": lg, "smallest": sm, "inc": inc, "mode": mode}})); }
+            _ => { let d = if r.chance(1, 12) { cal_dur(r) } else { time_day_dur(r) };
+                   let u = if r.chance(1, 15) { "week" } else { *r.pick(&tunits) };
+                   t.call("Duration.total", json!({"recv": d, "unit": u})); }
+        }
+        t.reset();
+    }
 }
